@@ -312,8 +312,10 @@ def check_property(verif, pid, tier, cp, keep=False):
             "wall_s": round(time.time() - t0, 2),
             "violations": len(violations),
         }
-        os.makedirs(os.path.join(verif, "evidence"), exist_ok=True)
-        with open(os.path.join(verif, "evidence", pid + ".json"), "w") as f:
+        # (runs against a scratch copy of the repository - seeded changes - keep their evidence out of /verif/evidence)
+        evdir = os.environ.get("VERIF_EVIDENCE_DIR") or os.path.join(verif, "evidence")
+        os.makedirs(evdir, exist_ok=True)
+        with open(os.path.join(evdir, pid + ".json"), "w") as f:
             json.dump(ev, f, indent=1)
         for u in undecided:
             print(f"UNDECIDED: property={pid} {u}")
